@@ -7,6 +7,7 @@ import (
 	"hash/fnv"
 	"math"
 	"math/rand"
+	"slices"
 	"sort"
 	"strconv"
 	"strings"
@@ -379,19 +380,29 @@ func snapTrace(args []string) int {
 			rec.G, rec.V, rec.Tag = *g0+i, v, gname
 			out.put(rec)
 		}
-		emit("base", poly, sg.ids, cfg)
+		// the ids are requested in ascending order in two calls out of three, otherwise reversed or shuffled (the API takes a slice)
+		req := append([]int{}, sg.ids...)
+		if len(req) > 1 {
+			switch rng.Intn(6) {
+			case 0:
+				slices.Reverse(req)
+			case 1:
+				rng.Shuffle(len(req), func(a, b int) { req[a], req[b] = req[b], req[a] })
+			}
+		}
+		emit("base", poly, req, cfg)
 		if want["again"] {
-			emit("again", poly, sg.ids, cfg)
+			emit("again", poly, req, cfg)
 		}
 		if want["keep"] {
 			c := cfg
 			c.KeepPointsAndLines = !c.KeepPointsAndLines
-			emit("keep", poly, sg.ids, c)
+			emit("keep", poly, req, c)
 		}
 		if want["rev"] {
 			c := cfg
 			c.ReverseWindingOrder = !c.ReverseWindingOrder
-			emit("rev", poly, sg.ids, c)
+			emit("rev", poly, req, c)
 		}
 		if want["ringrev"] {
 			for t := 0; t < min(len(poly), 2); t++ {
@@ -406,14 +417,23 @@ func snapTrace(args []string) int {
 					}
 				}
 				if any {
-					emit("ringrev", p2, sg.ids, cfg)
+					emit("ringrev", p2, req, cfg)
 				}
 			}
 		}
 		if want["subsets"] && len(sg.ids) > 1 {
 			for _, s := range subsetsOf(sg.ids) {
+				if len(s) > 1 && rng.Intn(2) == 0 {
+					slices.Reverse(s)
+				}
 				emit("subset", poly, s, cfg)
 			}
+			perm := append([]int{}, sg.ids...)
+			slices.Reverse(perm)
+			if slices.Equal(perm, req) {
+				slices.Reverse(perm)
+			}
+			emit("subset", poly, perm, cfg) // the full set in another order
 		}
 	}
 	return 0
